@@ -54,11 +54,48 @@ def bump(h, delta):
     return kgen.H(y)
 
 
-def mutate(d, rng):
+def pick_pos(rng, n):
+    """ an index into a sorted sequence: first, last or anywhere, equally likely (comparisons that walk two sorted
+    sequences in parallel are position-sensitive: an entry that sorts last is the one a truncating walk misses) """
+    if _FORCE[0] is not None:
+        return 0 if _FORCE[0] == 'first' else n - 1
+    return rng.choice([0, n - 1, rng.randrange(n)])
+
+
+_FORCE = [None]     # 'first' | 'last' while positional_mutants() enumerates; None for random mutation
+
+
+def edge_name(rng, lo, hi):
+    if _FORCE[0] is not None:
+        return lo if _FORCE[0] == 'first' else hi
+    return rng.choice([hi, lo])
+
+
+def positional_mutants(d, rng):
+    """ deterministic family: for every present part and for kind in {add, remove}, the entry that sorts FIRST and the
+    entry that sorts LAST inside an existing group """
+    out = []
+    for part in PARTS:
+        if d[part] is None:
+            continue
+        for kind in ('add', 'remove'):
+            for pos in ('first', 'last'):
+                _FORCE[0] = pos
+                try:
+                    m, info = mutate(d, rng, part, kind)
+                finally:
+                    _FORCE[0] = None
+                if m is not None and m != d:
+                    info['pos'] = pos
+                    out.append({'d': d, 'other': m, 'mode': 'mut', 'info': info, 'side': rng.choice(['a', 'b'])})
+    return out
+
+
+def mutate(d, rng, part=None, kind=None):
     """ returns (mutated description, info) or (None, None) when nothing to mutate """
     d = copy.deepcopy(d)
-    part = rng.choice([p for p in PARTS if d[p] is not None] or ['sensors'])
-    kind = rng.choice(['alter', 'alter', 'remove', 'add', 'absent'])
+    part = part or rng.choice([p for p in PARTS if d[p] is not None] or ['sensors'])
+    kind = kind or rng.choice(['alter', 'alter', 'remove', 'add', 'absent'])
     mag = rng.choice(['big', 'big', 'tiny'])
     expect_equal = False
     v = d[part]
@@ -108,9 +145,15 @@ def mutate(d, rng):
         if not v:
             kind = 'add'
         if kind == 'add':
-            v.append([10 ** 6 + rng.randrange(100), next(iter(d['sensors'])), kgen.gen_pose(rng, partial=False)])
+            if v and (_FORCE[0] is not None or rng.random() < 0.6):
+                # a new device inside an EXISTING timestamp (first, last or any), sorting before or after the others
+                tss = sorted({e[0] for e in v})
+                v.append([tss[pick_pos(rng, len(tss))], edge_name(rng, '00_dev', 'zz_dev'), kgen.gen_pose(rng, partial=False)])
+            else:
+                v.append([10 ** 6 + rng.randrange(100), next(iter(d['sensors'])), kgen.gen_pose(rng, partial=False)])
         elif kind == 'remove':
-            v.pop(rng.randrange(len(v)))
+            order = sorted(range(len(v)), key=lambda i: (v[i][0], v[i][1]))
+            v.pop(order[pick_pos(rng, len(v))])
         else:
             e = rng.choice(v)
             w = rng.choice(['pose', 'ts', 'dev'])
@@ -129,9 +172,25 @@ def mutate(d, rng):
                      'records_wifi': {'AA': [2400, kgen.H(-50.0), 'n', 0, 0]}, 'records_bluetooth': {'BB': [kgen.H(-60.0), 'b']},
                      'records_gnss': [kgen.H(1.0), kgen.H(2.0), kgen.H(3.0), 5, kgen.H(0.5)]}.get(
                 part, [kgen.H(1.0), kgen.H(2.0), kgen.H(3.0)])
-            v.append([10 ** 6 + rng.randrange(100), dev, proto])
+            r = rng.random() if _FORCE[0] is None else (0.0 if not isinstance(proto, dict) or rng.random() < 0.5 else 0.5)
+            if v and r < 0.4:
+                tss = sorted({e[0] for e in v})
+                v.append([tss[pick_pos(rng, len(tss))], edge_name(rng, '00_dev', 'zz_dev'), proto])
+            elif v and r < 0.6 and isinstance(proto, dict):
+                # one more access point / beacon inside an existing scan
+                order = sorted(range(len(v)), key=lambda i: (v[i][0], v[i][1]))
+                e = v[order[pick_pos(rng, len(v))]]
+                e[2][edge_name(rng, '00:00', 'zz:zz')] = copy.deepcopy(next(iter(proto.values())))
+            else:
+                v.append([10 ** 6 + rng.randrange(100), dev, proto])
         elif kind == 'remove':
-            v.pop(rng.randrange(len(v)))
+            order = sorted(range(len(v)), key=lambda i: (v[i][0], v[i][1]))
+            e = v[order[pick_pos(rng, len(v))]]
+            if isinstance(e[2], dict) and len(e[2]) > 1 and rng.random() < 0.5:  # one access point of the scan
+                ks = sorted(e[2])
+                del e[2][ks[pick_pos(rng, len(ks))]]
+            else:
+                v.remove(e)
         else:
             e = rng.choice(v)
             if isinstance(e[2], str):
@@ -179,9 +238,16 @@ def mutate(d, rng):
             kind = 'add'
         if kind == 'add':
             kt = next(iter(d['keypoints'])) if d['keypoints'] else 'sift'
-            v.append([0, kt, 'zz_new.jpg', 3])
+            if v and (_FORCE[0] is not None or rng.random() < 0.7):
+                # one more observation on an EXISTING point (lowest, highest or any id), image sorting first or last
+                order = sorted(range(len(v)), key=lambda i: tuple(map(str, v[i])))
+                e = v[order[pick_pos(rng, len(v))]]
+                v.append([e[0], e[1], edge_name(rng, '00_new.jpg', 'zz_new.jpg'), 3])
+            else:
+                v.append([0, kt, 'zz_new.jpg', 3])
         elif kind == 'remove':
-            v.pop(rng.randrange(len(v)))
+            order = sorted(range(len(v)), key=lambda i: (v[i][0], v[i][1], v[i][2], v[i][3]))
+            v.pop(order[pick_pos(rng, len(v))])
         else:
             e = rng.choice(v)
             i = rng.randrange(4)
@@ -241,7 +307,11 @@ def gen_case(rng):
 
 def cases(rng, tier):
     n = 300 if tier == 'quick' else 6000
-    return [gen_case(rng) for _ in range(n)]
+    out = [gen_case(rng) for _ in range(n)]
+    opts = kgen.Opts(p_part=0.9, id_pool=3, fancy_ids=False, max_rows=4, image_pool=4, partial_poses=True, special_floats=False)
+    for _ in range(15 if tier == 'quick' else 300):
+        out.extend(positional_mutants(kgen.gen_dataset(rng, opts), rng))
+    return out
 
 
 _cache = {}
